@@ -83,6 +83,9 @@ func c09MultiEntry(r *Run) {
 			return
 		}
 		defer v.Close()
+		// let the ticker goroutine's initial run pass (a forced run stamps the finish time, the queued one then skips): a refresh
+		// arriving later would replace the store the fault is injected into
+		v.V.VerifCRLChecker().VerifUpdateCRLs(true)
 		chainsOf := func(l *Leaf) [][]*x509.Certificate { return [][]*x509.Certificate{{l.Cert, ca.Cert}} }
 		repo := v.V.VerifCRLChecker().VerifRepository()
 		ents := repo.VerifEntries()
@@ -504,6 +507,7 @@ func c09RunRepoCase(r *Run, ca *CA, origin *Origin, caFile string, idx int, c c0
 		return
 	}
 	defer v.Close()
+	v.V.VerifCRLChecker().VerifUpdateCRLs(true) // the initial run of the ticker goroutine must not arrive after the fault was injected
 	chainsOf := func(l *Leaf) [][]*x509.Certificate { return [][]*x509.Certificate{{l.Cert, ca.Cert}} }
 	v0l, _ := v.Verify(chainsOf(listed))
 	// the unlisted certificate: on disk its hashed key must lie strictly inside the key range of the table, so that the
